@@ -43,6 +43,7 @@ type tOpt struct {
 	StartQid  uint16
 	SeedQueue int // pre-occupied wire IDs following StartQid (forces the skip loop)
 	WriteFailNth int // >0: the n-th client write over all connections fails
+	Withdraw  bool // tdc kinds: a caller may reserve and withdraw instead of exchanging
 	IdleTimeout time.Duration
 }
 
@@ -91,12 +92,15 @@ type tsys struct {
 	closeAt  time.Duration
 	closeCalled bool
 	closeReturned bool
+	reserving int
+	active   int // calls between a successful reserve / start of ExchangeContext and their return
 	tr       interface {
 		ExchangeContext(ctx context.Context, m []byte) (*[]byte, error)
 		Close() error
 	}
 	dc       *TraditionalDnsConn
 	finished bool
+	beforeClose func()
 }
 
 func (s *tsys) key() unsafe.Pointer { return unsafe.Pointer(s) }
@@ -125,7 +129,7 @@ func (s *tsys) newConn() *tConn {
 		// unanswered queries carried by this connection right now
 		seen := map[int]bool{}
 		for _, x := range s.xmits {
-			if x.conn == cn.idx && x.call >= 0 && !s.calls[x.call].done {
+			if x.conn == cn.idx && x.call >= 0 && !s.calls[x.call].done && !s.calls[x.call].answerConsumed {
 				seen[x.call] = true
 			}
 		}
@@ -136,6 +140,16 @@ func (s *tsys) newConn() *tConn {
 			cn.b.Deliver(wb)
 		}
 		return nil
+	}
+	cn.a.OnConsumed = func(id int) {
+		for _, r := range cn.answers {
+			if r.recID == id {
+				r.consumed, r.consumedAt = true, vs.Elapsed()
+				if ci := s.callOf(r.forQuery); ci >= 0 && !s.calls[ci].done {
+					s.calls[ci].answerConsumed = true
+				}
+			}
+		}
 	}
 	vs.GoNamed(fmt.Sprintf("srv%d", cn.idx), func() { s.serve(cn) })
 	return cn
@@ -373,6 +387,9 @@ func (s *tsys) run() {
 	}
 	wg.Wait()
 	s.finished = true
+	if s.beforeClose != nil {
+		s.beforeClose()
+	}
 	if s.tr != nil {
 		s.tr.Close()
 	} else {
@@ -406,19 +423,45 @@ func (s *tsys) doCall(ci int, c *call) {
 	if s.tr != nil {
 		r, err = s.tr.ExchangeContext(ctx, c.q)
 	} else {
+		s.reserving++
+		c.activeMax = s.active
+		c.reservingNow = true
 		re, closed := s.dc.ReserveNewQuery()
+		c.reservingNow = false
+		s.reserving--
 		if re == nil {
 			c.refused, c.refusedClosed = true, closed
 			c.done, c.retAt = true, vs.Elapsed()
 			return
 		}
+		s.bumpActive(1)
+		if s.opt.Withdraw && vs.Choose(2) == 1 {
+			c.withdrawn = true
+			re.WithdrawReserved()
+			s.bumpActive(-1)
+			c.done, c.retAt = true, vs.Elapsed()
+			return
+		}
 		r, err = re.ExchangeReserved(ctx, c.q)
+		s.bumpActive(-1)
 	}
 	c.done, c.err, c.retAt = true, err, vs.Elapsed()
 	c.ctxDoneAtRet = ctx.Err() != nil
 	if r != nil {
 		c.resp = append([]byte(nil), (*r)...)
 		pool.ReleaseBuf(r)
+	}
+}
+
+// bumpActive maintains the number of calls holding a reservation (an upper
+// bound of the connection's own count: it is decremented only after the call
+// returned) and, for calls currently inside ReserveNewQuery, the maximum seen.
+func (s *tsys) bumpActive(d int) {
+	s.active += d
+	for _, c := range s.calls {
+		if c.reservingNow && s.active > c.activeMax {
+			c.activeMax = s.active
+		}
 	}
 }
 
